@@ -15,9 +15,9 @@ CONDS = [
     Cond('nth_walk_ok',
          'position assigned by the real sibling walk (recovered via :nth-*(p) for p = 0..n+1, plus 2n+1 and -n+2) == '
          'reference position among element siblings / same-type siblings / siblings matching .x, from either end',
-         'sibling layouts: all sequences over {li, li.x, p, p.x, text, comment} up to length 2 (quick) / 4 (thorough) '
-         'and over {li, p, text} up to length 4 / 7; containers: <ul> in HTML doc (all layouts); document top level, '
-         'detached <ul>, <ul> in XML doc (layouts up to length 2 / 3)',
+         'sibling layouts: all sequences over {li, li.x, p, p.x, text, comment} up to length 3 (quick) / 5 (thorough) '
+         'and over {li, p, text} up to length 5 / 8; containers: <ul> in HTML doc (all layouts); document top level, '
+         'detached <ul>, <ul> in XML doc (layouts up to length 3 / 4); body runs natively once the solver has fixed the indices',
          timeout={'quick': 100, 'thorough': 1500}, parts={'quick': 10, 'thorough': 16}),
     Cond('nth_detached_ok', 'parentless element (fake parent): position 1 from either end; a, b unbounded',
          'a, b: all integers', timeout={'quick': 60, 'thorough': 300}, expect_exhaustive=True),
